@@ -20,10 +20,10 @@ STUBS = [
     "base64.b64decode: the stdlib function is executed natively on a model when the argument is symbolic -> modelled: raises ValueError on non-ASCII text, binascii.Error on a solver-chosen flag, else returns fresh bytes",
     "urllib.parse.parse_qsl (stdlib) on a symbolic query string: returns 0..2 pairs of arbitrary short strings (documented contract); urllib.parse.unquote is interpreted from the stdlib source where reachable",
     "codecs.lookup on symbolic text: C-level lower-casing + encodings.normalize_encoding (interpreted) + the alias/module tables of the encodings package; differentially tested against the real function on ~800 names each run",
-    "datetime.timedelta(seconds=n) on a symbolic int: OverflowError beyond +-10^9 days, else an opaque value",
+    "datetime.timedelta(seconds=n) on a symbolic int: OverflowError beyond +-999999999 days, else an opaque value; datetime.timezone(offset): ValueError unless strictly inside +-24h; datetime.datetime(y,m,d,hh,mm,ss,tzinfo) on symbolic ints: OverflowError outside the C int range, ValueError outside the documented field ranges (month lengths incl. leap years), else an opaque value. email.utils.parsedate_to_datetime / email._parseaddr._parsedate_tz are NOT stubbed: interpreted from the stdlib source",
 ]
 ASSUMPTIONS = ["server-controlled environ keys are well-formed and concrete"]
-OUTSIDE = ["non-ASCII host names (IDNA codec)", "form/files/data (multipart structure covered by C01/C10)", "parse_date (email.utils, datetime: C)", "Request.url beyond get_current_url on (scheme http, solver host, fixed path/query)", "texts longer than the bound"]
+OUTSIDE = ["non-ASCII host names (IDNA codec)", "form/files/data (multipart structure covered by C01/C10)", "the datetime value returned by parse_date (only 'None or not' is compared)", "Request.url beyond get_current_url on (scheme http, solver host, fixed path/query)", "texts longer than the bound"]
 
 
 def _targets():
@@ -73,6 +73,9 @@ def _targets():
         "Request.args": lambda I, v: _args(I, v),
         # result text may contain modelled punycode output: only "returned" is comparable
         "get_current_url[host]": lambda I, v: (I.call(sutils.get_current_url, ("http", v, "", "/p", b"q=1")), "returned")[1],
+        # email.utils.parsedate_to_datetime / _parsedate_tz are interpreted from the stdlib
+        # source; the datetime constructors are contract stubs (see make_stubs)
+        "parse_date": lambda I, v: I.call(http.parse_date, (v,)) is None,
     }
     return T
 
@@ -178,10 +181,64 @@ def make_stubs():
         sec = kw.get("seconds", a[1] if len(a) > 1 else 0)
         if isinstance(sec, SInt) and set(kw) <= {"seconds"} and len(a) <= 0:
             lim = 86400 * 1000000000
-            if sec >= lim or sec <= -lim:
+            if sec >= lim or sec < -86400 * 999999999:
                 raise OverflowError("days out of range")
             return OpaqueTimedelta(sec)
         return datetime.timedelta(*a, **kw)
+
+    C_INT = 2 ** 31
+
+    class OpaqueTz:
+        pass
+
+    class OpaqueDatetime:
+        def __init__(self, tzinfo):
+            self.tzinfo = tzinfo
+
+        def replace(self, tzinfo=None):
+            return OpaqueDatetime(tzinfo)
+
+    def timezone_stub(I, offset, *a):
+        """datetime.timezone(offset): ValueError unless -24h < offset < 24h"""
+        if isinstance(offset, OpaqueTimedelta):
+            sec = offset.seconds_total
+            if sec >= 86400 or sec <= -86400:
+                raise ValueError("offset must be a timedelta strictly between -timedelta(hours=24) and timedelta(hours=24)")
+            return OpaqueTz()
+        return datetime.timezone(offset, *a)
+
+    def datetime_stub(I, *a, **kw):
+        """datetime.datetime(y, m, d, hh, mm, ss[, tzinfo]) on symbolic ints: OverflowError
+        when an argument does not fit a C int, ValueError when a field is out of range
+        (day checked against the month's length incl. leap years), else an opaque value"""
+        from symex.core import SInt
+
+        tz = kw.get("tzinfo")
+        if not (any(isinstance(x, SInt) for x in a) or isinstance(tz, OpaqueTz)) or len(a) != 6 or set(kw) - {"tzinfo"}:
+            return datetime.datetime(*a, **kw)
+        for x in a:
+            if x >= C_INT or x < -C_INT:
+                raise OverflowError("signed integer is greater than maximum")
+        y, m, d, hh, mi, ss = a
+        if y < 1 or y > 9999:
+            raise ValueError("year is out of range")
+        if m < 1 or m > 12:
+            raise ValueError("month must be in 1..12")
+        if m == 2:
+            dim = 29 if (y % 4 == 0 and (y % 100 != 0 or y % 400 == 0)) else 28
+        elif m == 4 or m == 6 or m == 9 or m == 11:
+            dim = 30
+        else:
+            dim = 31
+        if d < 1 or d > dim:
+            raise ValueError("day is out of range for month")
+        if hh < 0 or hh > 23:
+            raise ValueError("hour must be in 0..23")
+        if mi < 0 or mi > 59:
+            raise ValueError("minute must be in 0..59")
+        if ss < 0 or ss > 59:
+            raise ValueError("second must be in 0..59")
+        return OpaqueDatetime(tz)
 
     import urllib.parse
 
@@ -210,7 +267,8 @@ def make_stubs():
 
     from harness.c03 import make_stubs as quote_stubs
 
-    st = {base64.b64decode: b64decode_stub, datetime.timedelta: timedelta_stub, urllib.parse.parse_qsl: parse_qsl_stub,
+    st = {base64.b64decode: b64decode_stub, datetime.timedelta: timedelta_stub, datetime.timezone: timezone_stub,
+          datetime.datetime: datetime_stub, urllib.parse.parse_qsl: parse_qsl_stub,
           codecs.lookup: stdstubs.codecs_lookup_stub, urllib.parse.urlsplit: urlsplit_stub}
     st.update(quote_stubs())
     return st
@@ -261,6 +319,9 @@ def obligations(tier, seed):
         "get_host": ["{}:80", "[{}]"], "host_is_trusted": ["{}.example.org", "{}:80"],
         "Request.args": ["a={}&b=1"],
         "get_current_url[host]": ["xn--{}", "a.xn--{}", "{}.b"],
+        "parse_date": ["1 Jan {} 00:00 GMT", "{} Jan 2024 00:00 GMT", "1 {} 2024 00:00", "1 Jan 2024 {} GMT", "1 Jan 2024 00:00 {}",
+                       "Mon, {} 2024 00:00:00 GMT", "Sunday, 06-Nov-{} 08:49:37 GMT", "29 Feb {}00 0:0",
+                       "1 Jan 99999999{} 0:0", "1 Jan 2024 99999999{}:0", "1 Jan 2024 0:0 +99999999999{}"],
     }
     for name, skels in SK.items():
         for skel in skels:
